@@ -7,7 +7,7 @@
 (* clauses and the run goes on; Consumed (POSTCONDITION) demands that      *)
 (* every step of every case was judged.                                    *)
 (***************************************************************************)
-EXTENDS JudgeC01, JudgeHist, JudgeC15, JudgeC20, JudgePass, JudgeCnf, JudgeFn, Json, IOUtils, TLCExt
+EXTENDS JudgeC01, JudgeHist, JudgeC15, JudgeC20, JudgePass, JudgeCnf, JudgeFn, JudgeBench, Json, IOUtils, TLCExt
 
 (* The case file is deserialised ONCE (in Init, into TLC register 7); TLC would otherwise
    re-read the JSON file at every reference of a zero-arity definition built on IOEnv. *)
@@ -32,6 +32,8 @@ Fails(c, s) ==
     [] c.kind = "ttcode"  -> C01TTCodeFails(c)
     [] c.kind = "hist"    -> HistFails(c, s)
     [] c.kind = "partial" -> C15Fails(c)
+    [] c.kind = "bench-rt"  -> C11RoundTripFails(c)
+    [] c.kind = "bench-doc" -> C11DocFails(c)
     [] c.kind = "fn"      -> C12FnFails(c)
     [] c.kind = "model"   -> C12ModelFails(c)
     [] c.kind = "intfn"   -> C12IntFails(c)
